@@ -25,6 +25,7 @@ import (
 	"regexp"
 	"sort"
 	"strings"
+	"time"
 
 	"github.com/opencontainers/go-digest"
 	ocispec "github.com/opencontainers/image-spec/specs-go/v1"
@@ -38,6 +39,12 @@ import (
 )
 
 var run *common.Run
+
+// generous bound for one copy of a graph of at most ~20 small nodes
+const watchdog = 20 * time.Second
+
+// hangs counts watchdog expiries; generation stops after the second one (each costs the full watchdog)
+var hangs int
 
 // ---------------------------------------------------------------- case description
 
@@ -735,8 +742,14 @@ func runCase(spec *caseSpec) {
 			if spec.Raw {
 				src = b.store
 			}
-			err = oras.ExtendedCopyGraph(ctx, src, dst, startDesc, buildOpts(spec, fs))
-			if err != nil {
+			wctx, cancel := context.WithTimeout(ctx, watchdog)
+			err = oras.ExtendedCopyGraph(wctx, src, dst, startDesc, buildOpts(spec, fs))
+			hung := wctx.Err() != nil
+			cancel()
+			if hung {
+				hangs++
+				fail("copy-hang", fmt.Sprintf("ExtendedCopyGraph did not return within %v (Concurrency %d): %v", watchdog, spec.Conc, err))
+			} else if err != nil {
 				fail("unexpected-error", fmt.Sprintf("ExtendedCopyGraph failed on a complete source and empty destination: %v", err))
 			} else {
 				checkDst("ExtendedCopyGraph", dst)
@@ -745,7 +758,7 @@ func runCase(spec *caseSpec) {
 		}
 	}
 	// ---- ExtendedCopy (resolve, copy, tag)
-	{
+	if hangs == 0 {
 		dst, clean, err := newDst(spec.Dst)
 		if err == nil {
 			eopts := oras.ExtendedCopyOptions{ExtendedCopyGraphOptions: buildOpts(spec, fs)}
@@ -754,8 +767,14 @@ func runCase(spec *caseSpec) {
 				content.Resolver
 			}
 			var src rgt = b.store
-			desc, err := oras.ExtendedCopy(ctx, src, startTag(spec.Start), dst, spec.DstRef, eopts)
-			if err != nil {
+			wctx, cancel := context.WithTimeout(ctx, watchdog)
+			desc, err := oras.ExtendedCopy(wctx, src, startTag(spec.Start), dst, spec.DstRef, eopts)
+			hung := wctx.Err() != nil
+			cancel()
+			if hung {
+				hangs++
+				fail("copy-hang", fmt.Sprintf("ExtendedCopy did not return within %v (Concurrency %d): %v", watchdog, spec.Conc, err))
+			} else if err != nil {
 				fail("unexpected-error", fmt.Sprintf("ExtendedCopy failed on a complete source and empty destination: %v", err))
 			} else {
 				checkDst("ExtendedCopy", dst)
@@ -970,8 +989,8 @@ func main() {
 		return
 	}
 	r := run.Rand
-	graphs := run.Scale(220, 5000)
-	for i := 0; i < graphs; i++ {
+	graphs := run.Scale(1500, 40000)
+	for i := 0; i < graphs && hangs < 2; i++ {
 		g := randomGraph(r)
 		if i%10 == 0 {
 			if err := g.SelfTest(); err != nil {
